@@ -289,6 +289,36 @@ func init() {
 				return true
 			})
 		}
+		// getTargetInfo: the topology lookup is a statement of the function body itself (not nested in a
+		// branch) and comes before the statement that consults the overrides: it dominates both branches
+		topoFirst := false
+		if gti != nil {
+			topoPos, ovPos := token.NoPos, token.NoPos
+			for _, st := range gti.Body.List {
+				if _, nested := st.(*ast.IfStmt); !nested && topoPos == token.NoPos {
+					for _, c := range calls(st) {
+						if c == "s.getTargetConfigurable" {
+							topoPos = st.Pos()
+						}
+					}
+				}
+				if is, ok := st.(*ast.IfStmt); ok && ovPos == token.NoPos {
+					hit := false
+					ast.Inspect(is, func(n ast.Node) bool {
+						if e, ok := n.(ast.Expr); ok && fullExpr(e) == "overrides.Overrides" {
+							hit = true
+						}
+						return true
+					})
+					if hit {
+						ovPos = is.Pos()
+					}
+				}
+			}
+			topoFirst = topoPos != token.NoPos && ovPos != token.NoPos && topoPos < ovPos
+		}
+		fmt.Fprintf(&out, "/-- getTargetInfo fetches the target's Configurable from the topology unconditionally, before the overrides are consulted -/\ndef setTopoLookupDominatesOverrides : Bool := %v\n\n", topoFirst)
+
 		fmt.Fprintf(&out, "/-- getTargetInfo: `if len(id) > 0 { targetID = id }` (id = the prefix target) -/\ndef setPrefixTargetWins : Bool := %v\n\n", prefixWins)
 	})
 }
